@@ -497,7 +497,10 @@ impl Run {
 			"crash_states": crash_states,
 			"first_actions": self.sample,
 		}));
-		if !self.out.violations.is_empty() || !self.out.harness_errors.is_empty() {
+		if !self.out.violations.is_empty()
+			|| !self.out.harness_errors.is_empty()
+			|| std::env::var("PERSISTSIM_FORCE_REPLAY").is_ok()
+		{
 			self.out.replay = Some(json!({
 				"sim": "persistsim",
 				"profile": profile,
@@ -512,7 +515,7 @@ impl Run {
 // ---------------------------------------------------------------------------------------------
 // scheduler
 
-fn pending_completions(wd: &World) -> Vec<(usize, usize)> {
+pub(crate) fn pending_completions(wd: &World) -> Vec<(usize, usize)> {
 	let mut v = Vec::new();
 	for (i, n) in wd.nodes.iter().enumerate() {
 		if n.live.is_none() {
@@ -532,7 +535,7 @@ fn pending_completions(wd: &World) -> Vec<(usize, usize)> {
 
 /// A payment the channels can actually carry (the world's own generator aims at its limits):
 /// direct or two-hop along the line, amount well inside what the first hop reports.
-fn gen_send(wd: &World, rng: &mut Rng) -> Option<Action> {
+pub(crate) fn gen_send(wd: &World, rng: &mut Rng) -> Option<Action> {
 	let n = wd.nodes.len();
 	let from = rng.below(n as u64) as usize;
 	let mgr = wd.mgr(from)?;
@@ -583,7 +586,7 @@ fn gen_send(wd: &World, rng: &mut Rng) -> Option<Action> {
 	}))
 }
 
-fn next_chain_action(wd: &World, rng: &mut Rng) -> Option<Action> {
+pub(crate) fn next_chain_action(wd: &World, rng: &mut Rng) -> Option<Action> {
 	let n = wd.nodes.len();
 	let tip = wd.chain.tip_height();
 	let mut opts: Vec<(WAction, u32)> = Vec::new();
@@ -714,7 +717,7 @@ impl Sim for PersistSim {
 
 	fn run(&self, profile: &str, seed: u64, tier: Tier) -> RunOutcome {
 		match profile {
-			"async" => asyncp::run(seed, tier),
+			"async" | "async-fifo" => asyncp::run(profile, seed, tier),
 			_ => {
 				let mut rng = Rng::new(seed);
 				let cfg = gen_config(&mut rng, tier);
@@ -730,7 +733,7 @@ impl Sim for PersistSim {
 
 	fn replay(&self, replay: &Value) -> RunOutcome {
 		let profile = replay.get("profile").and_then(|p| p.as_str()).unwrap_or("sync");
-		if profile == "async" {
+		if profile == "async" || profile == "async-fifo" {
 			return asyncp::replay(replay);
 		}
 		let cfg: Config = match serde_json::from_value(replay["config"].clone()) {
